@@ -130,3 +130,45 @@ def param_omitted(fx):
             if t.startswith("param:") and t[6:] not in (fx.selfname, "cls"):
                 out.append((node, ctext, A.unparse(key), t[6:]))
     return out
+
+
+def attr_memo_param_omitted(fx):
+    """[(store node, attribute, parameter)] — ``if self._x is not None: return self._x … self._x = compute(arg)``: a result is
+    remembered in ONE slot of the object although it depends on a parameter of the method: the second call with another
+    argument is served the first call's result."""
+    fn = fx.fn
+    me = fx.selfname
+    if not me:
+        return []
+    out = []
+    fx._reaching()
+    returned = set()
+    for r in A.returns(fn):
+        a = A.self_attr(r.value, me) if r.value is not None else None
+        if a:
+            returned.add(a)
+        elif isinstance(r.value, ast.Name):
+            for t, v, st in A.assignments(fn, r.value.id):
+                if A.self_attr(v, me):
+                    returned.add(A.self_attr(v, me))
+    tested = set()
+    for i in ast.walk(fn):
+        if isinstance(i, ast.If):
+            for n in ast.walk(i.test):
+                a = A.self_attr(n, me) if isinstance(n, ast.Attribute) else None
+                if a:
+                    tested.add(a)
+    for st in A.body_walk(fn):
+        if not isinstance(st, ast.Assign):
+            continue
+        for t in st.targets:
+            a = A.self_attr(t, me)
+            if not a or a not in returned or a not in tested:
+                continue
+            if isinstance(st.value, ast.Constant):
+                continue
+            vsrc = fx.sources_with_control(st.value, st)
+            for tag in sorted(vsrc):
+                if tag.startswith("param:") and tag[6:] not in (me, "cls"):
+                    out.append((st, a, tag[6:]))
+    return out
